@@ -158,7 +158,9 @@ def write_out_helpers(stmts, resolve, like=None, depth=0):
         if isinstance(st, ast.Expr):
             continue
         tgt = st.targets[0] if len(st.targets) == 1 else None
-        if isinstance(tgt, (ast.Tuple, ast.List)) and isinstance(result, ast.Tuple) and len(tgt.elts) == len(result.elts) and all(_simple(e) for e in result.elts):
+        tnames = {x.id for x in ast.walk(tgt) if isinstance(x, ast.Name)} if tgt is not None else set()
+        independent = isinstance(result, ast.Tuple) and not any(isinstance(x, ast.Name) and x.id in tnames for x in ast.walk(result))
+        if isinstance(tgt, (ast.Tuple, ast.List)) and isinstance(result, ast.Tuple) and len(tgt.elts) == len(result.elts) and (all(_simple(e) for e in result.elts) or independent):
             for t, e in zip(tgt.elts, result.elts):
                 out.append(ast.fix_missing_locations(ast.copy_location(ast.Assign(targets=[t], value=e), st)))
         else:
